@@ -49,7 +49,10 @@ class Parser(object):
                   tabmodule=self.tabmodule)
 
     def parse(self, input):
-        return self.yacc.parse(input)
+        # Without an explicit lexer ply.yacc falls back on the process-global "last lexer built", shared by all
+        # parsers: a formula evaluated from inside a callback of another evaluation consumed its token stream.
+        # A clone per call keeps nested evaluations (other parser or this one) apart.
+        return self.yacc.parse(input, lexer=self.lex.clone())
 
     def run(self):
         while 1:
